@@ -370,6 +370,7 @@ fn build_with(seed: u64, variant: &str, drops: &str) -> Option<Built> {
                     len: None,
                     static_sampler: false,
                     bindless: false,
+                    empty: false,
                 });
             }
         }
